@@ -18,6 +18,14 @@ def model():
     return _model
 
 
+def machine_known_spin(opts, mt):
+    wf = model().ask("wf", opts, mt)
+    if "noSpin=true" in wf:
+        return False
+    paths = model().ask("spin", opts, mt)
+    return "ask:full:" in paths and "=true" in paths
+
+
 class Case:
     """One program compiled by the real nmfu under one option set, its exported machine, its binary."""
 
@@ -56,6 +64,11 @@ class Case:
     def run_model(self, ops):
         r = model().ask("rt", self.opts, self.mt, ";".join(ops))
         return r.split(" ## ") if r else []
+
+    def known_spin(self):
+        """The exported machine fails the Lean spin check through an out-of-space redirect: the
+        finding recorded under C04 (feed may not return on this program)."""
+        return machine_known_spin(self.opts, self.mt)
 
     def indirect(self):
         return self.flags["INDIRECT_START_PTR"]
@@ -119,3 +132,43 @@ def segments(lines):
             segs.append([])
         segs[-1].append(l)
     return segs
+
+
+def walk_diffs(prog, args, workdir, rng, nwalks=8, long_walks=1):
+    """Build the real generated C for `prog` and compare the binary with the Lean runtime model
+    on walks that follow the machine (plus long ones that reach buffer capacities).
+    -> (status, diffs): status ok | rejected:… | unsupported:… | build:…"""
+    import inputs, shutil
+    c = Case(prog, args, workdir)
+    if not c.ok:
+        return c.why, []
+    diffs = []
+    try:
+        biggest = max([o.str_size for o in c.outs if getattr(o, "str_size", None)] or [0])
+        ops = []
+        seg_ops = []
+        for wi in range(nwalks + long_walks):
+            if wi < nwalks:
+                data = inputs.random_walk(c.dfa, rng, rng.randint(1, 24), p_follow=0.9)
+            else:
+                data = inputs.random_walk(c.dfa, rng, min(biggest, 300) + rng.randint(2, 10), p_follow=0.985)
+            chunks = inputs.chunkings(data, rng, 1)[-1] if len(data) > 1 and rng.random() < 0.5 else None
+            o = feed_ops(c, data, chunks)
+            seg_ops.append(o)
+            ops += o
+        cl, status, err = c.run_c(ops, timeout=30)
+        if status != "ok":
+            return "ok", [{"kind": "binary-" + status, "args": c.args, "detail": err[-300:], "tail": cl[-3:]}]
+        ml = c.run_model(ops)
+        cs, ms = segments(cl), segments(ml)
+        if len(cs) != len(ms):
+            return "ok", [{"kind": "segments", "args": c.args, "detail": f"{len(cs)} vs {len(ms)}"}]
+        for k, (a, b) in enumerate(zip(cs, ms)):
+            d = compare(a, b)
+            if d is not None:
+                diffs.append({"kind": d[0], "args": c.args, "ops": seg_ops[k], "binary": a[-6:], "model": b[-6:], "first": [d[2], d[3]]})
+                if len(diffs) >= 2:
+                    break
+    finally:
+        shutil.rmtree(workdir, ignore_errors=True)
+    return "ok", diffs
